@@ -41,10 +41,21 @@ def make(ndim, nvars, internal, pattern, strcoord):
             arr[npr.rand(*vshape) < 0.2] = np.inf
         if pattern == "inf-only":
             arr = np.where(np.isnan(arr), np.inf if v % 2 else -np.inf, arr)     # no NaN anywhere: the bad values are all infinite
+        if ndim >= 2 and v == nvars - 1 and not (internal and v == 0):
+            # the last variable is stored with its dimensions in the opposite order (legal in xarray: labels, not positions, matter)
+            vdims, arr = tuple(reversed(vdims)), np.transpose(arr)
+        if ndim >= 2 and nvars == 3 and v == 1 and not internal:
+            # a variable that depends on only some of the parameters
+            vdims = tuple(dims[1:])
+            arr = npr.rand(*shape[1:]) + 1.0
+            arr[npr.rand(*shape[1:]) < 0.5] = np.nan
         data_vars[f"v{v}"] = (vdims, arr)
     if internal:
         coords["time"] = [0, 1, 2]
-    return xr.Dataset(data_vars, coords=coords), dims
+    ds = xr.Dataset(coords=coords)          # the dataset lists its dimensions in this order, however each variable stores its axes
+    for k_, v_ in data_vars.items():
+        ds[k_] = v_
+    return ds, dims
 
 
 def oracle_missing(ds, dims, setting, method):
@@ -79,7 +90,7 @@ def check(ndim, nvars, internal, pattern, strcoord, method, progbar=False):
         probs.append(f"find_missing_cases gave {got}, oracle (grid order, no duplicates) gives {want}")
     # parse_into_cases: requested combos x cases, filtered, plus absent coordinates
     first = order[0]
-    extra = "zz" if strcoord else 999
+    extra = "zz" if isinstance(ds[first].values[0], str) else 999      # an absent label of the coordinate's own type
     combos = {first: list(ds[first].values) + [extra]}
     rest = order[1:]
     req_cases = [dict(zip(rest, c)) for c in itertools.product(*[list(ds[d].values) for d in rest])] if rest else [{}]
